@@ -1,9 +1,122 @@
-/- stub: transcription of rrul_fill_Mly pending -/
-import Echse.Model.RrBase
+/-
+  Model of `rrul_fill_mly` (src/evrrul.c): FREQ=MONTHLY, SCALE=GREGORIAN.
+  Branch-by-branch transcription; the candidate builders and the emission loop are in `Echse.Model.RrCand`.
+  Tied to the C code by tools/rrfillprobe.py (`r.fill` lines through harness and model).
+-/
+import Echse.Model.RrCand
 namespace Echse.Rrule
 open Echse.Instant
 
-/-- `none` = not modelled yet -/
-def fillMly (_r : Rule) (_proto : Inst) (_nti : Nat) : Option (List Inst) := none
+/-- `MLY_TRIES` -/
+def mlyTries : Nat := 28 * 12 + 1
+
+/-- one step of the month counter: `y += inter / 12U; if ((m += inter % 12U) > 12) { m -= 12; y++; }`
+(`m` is a C `int`, `y` an `unsigned int`) -/
+def mlyStep (inter : Nat) (y : Nat) (m : Int) : Nat × Int :=
+  let y := (y + inter / 12) % u32
+  let m : Int := toS32 (toU32 m + inter % 12)
+  if m > 12 then ((y + 1) % u32, m - 12) else (y, m)
+
+/-- `bui31_has_bit_p(rr->mon, m)` for the `int` month -/
+def monHas (mon : List Nat) (m : Int) : Bool := m ≥ 0 ∧ mon.contains m.toNat
+
+/-- "get m on track": `for (i = 0; !has_bit(mon, m); i++) { if (i >= 12 || y > MAX_YEAR) goto fin; step; }`;
+`none` = `goto fin`.  Fuel 13: the round with `i = 12` leaves at the latest. -/
+def mlyTrack (mon : List Nat) (inter : Nat) : Nat → Nat → Nat → Int → Option (Nat × Int)
+  | 0, _, _, _ => none
+  | fuel+1, i, y, m =>
+    if monHas mon m then some (y, m)
+    else if i ≥ 12 ∨ y > maxYear then none
+    else
+      let (y, m) := mlyStep inter y m
+      mlyTrack mon inter fuel (i + 1) y m
+
+/-- the loop's increment: `do { step; } while (y <= MAX_YEAR && has_bits(mon) && !has_bit(mon, m));`
+Fuel 12: `m` stays within 1..12 and moves by `inter % 12` modulo 12, so after at most 12 steps it is back at the
+month it started from, which is in `mon` whenever `mon` has bits (the track loop saw to that, and this loop keeps
+it so unless it ends with `y > MAX_YEAR`, which ends the fill loop as well). -/
+def mlyNext (mon : List Nat) (inter : Nat) : Nat → Nat → Int → Nat × Int
+  | 0, y, m => (y, m)
+  | fuel+1, y, m =>
+    let (y, m) := mlyStep inter y m
+    if y ≤ maxYear ∧ !mon.isEmpty ∧ !monHas mon m then mlyNext mon inter fuel y m else (y, m)
+
+structure MlyCtx where
+  k : FillCtx
+  r : Rule
+  ds : List Int          -- `d[0 .. nd)`
+  wdMask : Nat
+
+/-- the candidates of month `y-m`: the body of the fill loop up to "limit by setpos" -/
+def mlyCand (c : MlyCtx) (y m : Nat) : List Nat :=
+  let nd := c.ds.length
+  let cand : List Nat := []
+  -- stick to note 1 on page 44, RFC 5545
+  let cand :=
+    if c.wdMask ≠ 0 ∧ nd ≠ 0 then cand                                     -- ymd, dealt with later
+    else if c.wdMask ≠ 0 then
+      let cand := if c.wdMask % 2 = 1 then fillMlyYmcw cand y m c.r.dow else cand
+      fillMlyYmdAllD cand y m c.wdMask
+    else cand
+  -- extend by ymd
+  if nd ≠ 0 then fillMlyYmd cand y m c.ds c.wdMask else cand
+
+/-- `for (res = 0, tries = MLY_TRIES; res < nti && --tries; ({ … next month … })) { … }` -/
+def mlyLoop (c : MlyCtx) : Nat → Nat → Int → Nat → FillSt → FillSt
+  | 0, _, _, _, st => st
+  | fuel+1, y, m, tries, st =>
+    if !(st.res < c.k.nti) then st else
+    let tries := tries - 1
+    if tries = 0 then st else
+    if y > maxYear then st else                    -- beyond the supported range: break
+    let st := finishPeriod c.k y (mlyCand c y (toU32 m)) st
+    if st.fin then st else
+    let (y, m) := mlyNext c.r.mon c.r.inter 12 y m
+    mlyLoop c fuel y m (if st.hit then mlyTries else tries) st
+
+/-- `rrul_fill_mly(tgt, nti, rr)` with `*tgt = proto`: the instants written to `tgt[0 .. res)`.
+`none`: not modelled (other scales; a proto carrying scale bits).
+
+`none` also where the C code divides by zero (`inter = 0` with a forward SHIFT).
+
+Fuel: the body runs only while `y ≤ 2099`; with `inter ≠ 0` the month count `12 * y + m` grows by at least `inter`
+from round to round (no wrap: `y ≤ 2099` before, `inter / 12 < 2^32 / 12`), so there are at most `12 * 2100` rounds.
+With `inter = 0` the month stands still; without a SHIFT a round either writes an instant (at most `nti` such
+rounds) or uses up one of the `MLY_TRIES - 1` tries that only a write restores: `MLY_TRIES * (nti + 1)` rounds.
+(`inter = 0` with a backward SHIFT: as in the yearly filler the C loop may never end.) -/
+def fillMly (r : Rule) (proto : Inst) (nti : Nat) : Option (List Inst) :=
+  if r.scale ≠ 0 ∨ proto.y ≥ 4096 then none else
+  match capNti r nti with
+  | none => some []                                -- COUNT used up: `goto fin`
+  | some nti =>
+    if proto.m = 0 ∨ proto.m > 12 then some [] else
+    -- check if we're ymd only
+    let ymdp := r.dow.isEmpty ∧ r.dom.isEmpty
+    let k := mkFillCtx r proto nti
+    let ds := r.dom.take 62
+    let ds := if ds.isEmpty ∧ ymdp ∧ proto.d ≠ 0 then [(proto.d : Int)] else ds
+    let wdMask := wdMaskOf r.dow
+    -- candidates of earlier months might be shifted to here: go back a whole number of intervals
+    let tmp : Int := shDvalue r.shift + tdiv (shBvalue r.shift * 7) 5
+    let tmp := if shBdayP r.shift ∧ !shNegP r.shift then tmp + 3 else tmp      -- weekends on the way
+    let y := proto.y
+    let m : Int := proto.m
+    if tmp > 0 ∧ r.inter ≤ (12 * y) % u32 ∧ r.inter = 0 then none else    -- `back % rr->inter` with inter = 0
+    let (y, m) : Nat × Int :=
+      if tmp > 0 ∧ r.inter ≤ (12 * y) % u32 then
+        let back := toU32 (tdiv (tmp - 1) 28 + 1)
+        let back := (back + r.inter + u32 - 1) % u32                 -- `back += rr->inter - 1U`
+        let back := back - back % r.inter                            -- `back -= back % rr->inter`
+        let y := (y + u32 - back / 12) % u32
+        let m : Int := toS32 (toU32 m + u32 - back % 12)             -- `m -= back % 12U`
+        if m ≤ 0 then ((y + u32 - 1) % u32, m + 12) else (y, m)
+      else (y, m)
+    -- get m on track
+    let start : Option (Nat × Int) := if !r.mon.isEmpty then mlyTrack r.mon r.inter 13 0 y m else some (y, m)
+    match start with
+    | none => some []
+    | some (y, m) =>
+      let c : MlyCtx := { k := k, r := r, ds := ds, wdMask := wdMask }
+      some (mlyLoop c (mlyTries * (nti + 1) + 12 * 2100 + 1) y m mlyTries {}).out.reverse
 
 end Echse.Rrule
